@@ -27,6 +27,8 @@ SPECS = {
     # ill-posed: blocks 0 and 2 share an unperturbed level; every request must behave as on a fresh computation
     "H111shared": dict(sizes=(1, 1, 1), E=(1, 5, 1), k=1, hermitian=True),
     "N111shared": dict(sizes=(1, 1, 1), E=(1, 5, 1), k=1, hermitian=False),
+    # second-quantised: three internal levels, one boson, each level its own block
+    "SQ3": dict(sizes=(1, 1, 1), E=(0, 0, 0), k=1, hermitian=True, sq=True),
     "N22": dict(sizes=(2, 2), E=(0, 1, 3, 7), k=1, hermitian=False),
     "N21fd": dict(sizes=(2, 1), E=(0, 1, 3), k=1, hermitian=False, fd=(0,)),
     "H22k2": dict(sizes=(2, 2), E=(0, 1, 3, 7), k=2, hermitian=True),
@@ -43,6 +45,21 @@ def make_inputs(spec):
     import sympy
     from scipy import sparse
 
+    if spec.get("sq"):
+        from sympy.physics.quantum import Dagger
+        from sympy.physics.quantum.boson import BosonOp
+
+        from pymablock.number_ordered_form import NumberOperator
+
+        a = BosonOp("a")
+        Nn = NumberOperator(a)
+        R_ = sympy.Rational
+        h = Nn + Nn**2 / 9
+        H0 = sympy.diag(h, h + R_(3, 2), h + R_(23, 5))
+        H1 = sympy.Matrix([[a + Dagger(a), a + 2 * Dagger(a), 2 * a - Dagger(a)],
+                           [Dagger(a) + 2 * a, 0, a + 3 * Dagger(a)],
+                           [2 * Dagger(a) - a, Dagger(a) + 3 * a, -(a + Dagger(a))]])
+        return {(0,): H0, (1,): H1}, dict(subspace_indices=[0, 1, 2], hermitian=True)
     sizes = spec["sizes"]
     E = spec["E"]
     N = len(E)
